@@ -235,7 +235,7 @@ TolLoose == 1048576         \* 2^-20
 
 (***************************************************************************)
 (* Part 5: property layer.  One recorded Interpolate step:                 *)
-(*   c = [method, dim, exact, rs, api, ue]  the configuration              *)
+(*   c = [method, dim, exact, rs, api, ue, per]  the configuration         *)
 (*   S  the CURRENT source arrays, p the point, th its smoothing length,   *)
 (*   lin the claimed linear form of the current field (checked here),      *)
 (*   v  = sequence of recorded components (1 for all methods but order1:   *)
@@ -305,9 +305,11 @@ FailedWith(c, P, p, th, lin, v) ==
          \cup (IF ClauseZero(c, P, p, th, v) THEN {} ELSE {"zero"})
          \cup (IF ClauseLinear(c, P, p, th, lin, v) THEN {} ELSE {"linear"})
 
-\* which clauses were not vacuous (coverage accounting)
+\* which clauses were not vacuous (coverage accounting; `formula` is counted
+\* only where some source contributes)
 AppliedWith(c, P, p, th, lin) ==
-    (IF c.exact /\ c.method # "order1" THEN {"formula"} ELSE {})
+    (IF c.exact /\ c.method # "order1" /\ MustSet(c, P, p, th) # {}
+     THEN {"formula"} ELSE {})
     \cup (IF Normalised(c.method) /\ MustSet(c, P, p, th) # {}
           THEN {"bounds"} ELSE {})
     \cup (IF Normalised(c.method) /\ MustSet(c, P, p, th) # {}
